@@ -119,7 +119,19 @@ int main(int argc, char **argv) {
       reader.append(arg).append(" ");
     /* mark the end of expression: could be semi-colon or nl */
     reader.append(";");
-    bloc::Context ctx(::fileno(STDOUT), ::fileno(STDERR));
+    CloseableFiles openFiles;
+    /* setup output stream */
+    if (!options.file_sout.empty())
+    {
+      outfile = ::fopen(options.file_sout.c_str(), "w");
+      if (!outfile)
+      {
+        fprintf(STDERR, "Failed to open file '%s' for write.\n", options.file_sout.c_str());
+        return EXIT_FAILURE;
+      }
+      openFiles.push(outfile);
+    }
+    bloc::Context ctx(::fileno(outfile), ::fileno(STDERR));
     bloc::Parser * p = bloc::Parser::createInteractiveParser(ctx, reader);
     bloc::Expression * exp = nullptr;
     try
